@@ -51,14 +51,16 @@ def build_once(d, files, main="main.capy"):
         os.makedirs(os.path.dirname(p), exist_ok=True)
         with open(p, "w") as f:
             f.write(text)
-    import subprocess
+    import subprocess, time
+    obj = os.path.join(d, "out", "main.o")
+    # only an object written by *this* build counts (a stale one left by an earlier build is not this build's output)
+    before = os.stat(obj).st_mtime_ns if os.path.exists(obj) else None
     try:
         pr = subprocess.run([core.CAPY, "build", main, "--mod-dir", core.MOD_DIR, "--color", "never", "--no-exec"], cwd=d, stdout=subprocess.PIPE, stderr=subprocess.STDOUT, timeout=30)
     except subprocess.TimeoutExpired:
         return None
     text = TIMING.sub("<t>", runner.clean(pr.stdout.decode("utf-8", "replace")))
-    obj = os.path.join(d, "out", "main.o")
-    data = open(obj, "rb").read() if os.path.exists(obj) else None
+    data = open(obj, "rb").read() if os.path.exists(obj) and os.stat(obj).st_mtime_ns != before else None
     return {"rc": pr.returncode, "out": text, "obj": data}
 
 
